@@ -2,6 +2,7 @@
 bldfm.config_parser (MetConfig through parse_config_dict, and the step range the drivers
 iterate over) and Model/Met.v, plus the property's own oracle."""
 import itertools
+import os
 import sys
 
 import core
@@ -122,7 +123,38 @@ def run_impl(cp, met, through_drivers=False):
             out.append([-996])
         elif returned != out[:n] * 2:
             out.append([-995])
+        # the command-line driver (cli.cmd_run): one single run per tower and per step, in time order
+        if cli_steps(raw, cfg) != [(cfg.towers[0].name, i) for i in range(n)]:
+            out.append([-994])
     return out
+
+
+def cli_steps(raw, cfg):
+    """(tower, met_index) pairs that `bldfm run config.yaml` asks run_bldfm_single for (None if it raises)"""
+    import argparse
+    import tempfile
+
+    import yaml
+
+    import bldfm.cli as cli
+    import bldfm.config as rc
+
+    d = tempfile.mkdtemp(prefix="c16cli_", dir=os.getcwd())
+    path = os.path.join(d, "config.yaml")
+    with open(path, "w") as f:
+        yaml.safe_dump(raw, f)
+    saved = (cli.run_bldfm_single, cli.initialize, rc.NUM_THREADS, rc.MAX_WORKERS, rc.USE_CACHE)
+    calls = []
+    cli.run_bldfm_single = lambda config, tower, met_index=0, **kw: calls.append((tower.name, met_index)) or {
+        "timestamp": config.met.get_step(met_index)["timestamp"], "tower_name": tower.name}
+    cli.initialize = lambda *a, **k: None
+    try:
+        cli.cmd_run(argparse.Namespace(config=path, dry_run=False, plot=False))
+    except Exception:
+        calls = None
+    finally:
+        cli.run_bldfm_single, cli.initialize, rc.NUM_THREADS, rc.MAX_WORKERS, rc.USE_CACHE = saved
+    return calls
 
 
 def coq_fld(base, spec, optional=False):
